@@ -10,12 +10,16 @@
 #ifndef K0
 #define K0 3
 #endif
+#ifndef AFLAGS
+#define AFLAGS 0  // AF_SOCCC: select_on_container_copy_construction hands out a different instance; then copying a shared
+                  // vector must not allocate through the shared vector's own allocator instance (its state would be shared)
+#endif
 #ifndef WITH_ELEM
 #define WITH_ELEM 0  // 1: additionally share a const ContiguousElement (needs at least one element in the vector)
 #endif
 
 using LT = L<LIST>;
-using Alloc = SAlloc<std::byte, 0>;
+using Alloc = SAlloc<std::byte, AFLAGS>;
 using Vec = LT::Vec<Alloc>;
 using Elem = typename Vec::value_type;
 using M = Model<LT::N>;
@@ -159,6 +163,10 @@ extern "C" void h_entry()
         const Elem shared(r0);
 #endif
         verif_freeze();
+        if ((AFLAGS & AF_SOCCC) != 0)
+        {
+            verif_freeze_allocs();
+        }
 #if WITH_ELEM
         element_reader(shared, v, m);
 #else
